@@ -150,6 +150,9 @@ T.update(W3)
 # wave 4: table generated from the authors' notes (tools/seeded_w4.json)
 W4 = {k: tuple(v) for k, v in json.load(open('/verif/tools/seeded_w4.json')).items()}
 T.update(W4)
+# wave 5 (second-review-pass repairs): same generation
+W5 = {k: tuple(v) for k, v in json.load(open('/verif/tools/seeded_w5.json')).items()}
+T.update(W5)
 for i, (where, breaks, needs) in sorted(T.items()):
     d = f"{S}/{i}"
     if not os.path.isdir(d):
